@@ -153,6 +153,7 @@ pub fn decode_case(data: &[u8]) -> Case {
         fault_pick: None,
         ops,
         salt,
+        unwinding: salt % 8 == 0,
     }
 }
 
